@@ -278,7 +278,7 @@ fn slru_spec(cfg: &Cfg, pre: &Snap, op: Op, c: &mut Counters) -> Option<Vec<(L, 
                 }
             }
         }
-        Op::CloneReplace => vec![(pb.to_vec(), pt.to_vec())],
+        Op::CloneReplace | Op::CloneFromReplace => vec![(pb.to_vec(), pt.to_vec())],
         _ => return None,
     })
 }
@@ -572,7 +572,7 @@ fn wtlfu_spec(cfg: &Cfg, pre: &Snap, probe: &Probe, op: Op, c: &mut Counters) ->
         Op::PeekMutW(k) => WExp { w: flip_key(w, k), pb: flip_key(pb, k), pt: flip_key(pt, k), demoted_into_window: None },
         Op::Remove(k) => WExp { w: without(w, k), pb: without(pb, k), pt: without(pt, k), demoted_into_window: None },
         Op::Purge => WExp { w: vec![], pb: vec![], pt: vec![], demoted_into_window: None },
-        Op::CloneReplace => WExp { w: w.clone(), pb: pb.clone(), pt: pt.clone(), demoted_into_window: None },
+        Op::CloneReplace | Op::CloneFromReplace => WExp { w: w.clone(), pb: pb.clone(), pt: pt.clone(), demoted_into_window: None },
         _ => return None,
     })
 }
@@ -700,6 +700,9 @@ pub fn check_state(cfg: &Cfg, sres: &StateRes, en: &BTreeSet<&'static str>, c: &
     // ---- C14
     for p in &sres.iter_problems {
         if let Some(f) = iter_panic(cfg, p) {
+            out.push(f);
+        }
+        if let Some(f) = iter_dead(cfg, p) {
             out.push(f);
         }
         out.push(Finding::new("C14", "iterator_words", p.split(':').next().unwrap_or("").to_string(), format!("{} in state {}", p, show(cfg, snap))));
@@ -1039,12 +1042,18 @@ pub fn check_trans(cfg: &Cfg, pre: &Snap, probe: &Probe, op: Op, t: &TransRes, e
             if let Some(f) = iter_panic(cfg, p) {
                 out.push(f);
             }
+            if let Some(f) = iter_dead(cfg, p) {
+                out.push(f);
+            }
             out.push(Finding::new("C14", "iterator_words_after_transition", p.split(':').next().unwrap_or("").to_string(), format!("{} — in the object built by {:?}", p, op)));
         }
         return out;
     }
     for p in &t.iter_problems {
         if let Some(f) = iter_panic(cfg, p) {
+            out.push(f);
+        }
+        if let Some(f) = iter_dead(cfg, p) {
             out.push(f);
         }
         out.push(Finding::new("C14", "iterator_words_after_transition", p.split(':').next().unwrap_or("").to_string(), format!("{} — in the object reached by {}", p, ctx(Some(post)))));
@@ -1083,6 +1092,7 @@ pub fn check_trans(cfg: &Cfg, pre: &Snap, probe: &Probe, op: Op, t: &TransRes, e
                         out.push(f("write_through_iterator_is_stored", format!("{}/{:?}", list_names(cfg.kind)[li], fam), format!("the first item of {:?} over {} should now read {:?}: {}", fam, list_names(cfg.kind)[li], want, ctx(Some(post)))));
                     }
                 }
+                None if n >= 100 && matches!(fam, IterFam::ValuesMut | IterFam::ValuesLruMut) => {}
                 None => {
                     if *ret != Ret::Bool(false) || post.canon() != pre.canon() {
                         out.push(f("write_through_iterator_is_stored", format!("{}/{:?}/empty", list_names(cfg.kind)[list as usize], fam), format!("{:?} over an empty list yielded an item or changed something: {}", fam, ctx(Some(post)))));
@@ -1280,7 +1290,7 @@ pub fn check_trans(cfg: &Cfg, pre: &Snap, probe: &Probe, op: Op, t: &TransRes, e
             if let Some(acc) = slru_spec(cfg, pre, op, c) {
                 if !acc.iter().any(|(a, b)| *a == post.lists[0] && *b == post.lists[1]) {
                     out.push(Finding::new(
-                        if op == Op::CloneReplace { "C16" } else { "C07" },
+                        if matches!(op, Op::CloneReplace | Op::CloneFromReplace) { "C16" } else { "C07" },
                         "slru_relation",
                         op_name(&op),
                         format!("segmented-LRU policy allows {}: {}", acc.iter().map(|(a, b)| format!("(probationary {:?}, protected {:?})", keys_of(a), keys_of(b))).collect::<Vec<_>>().join(" or "), ctx(Some(post))),
@@ -1345,7 +1355,7 @@ pub fn check_trans(cfg: &Cfg, pre: &Snap, probe: &Probe, op: Op, t: &TransRes, e
                 };
                 if !window_ok || post.lists[1] != e.pb || post.lists[2] != e.pt {
                     out.push(Finding::new(
-                        if op == Op::CloneReplace { "C16" } else { "C10" },
+                        if matches!(op, Op::CloneReplace | Op::CloneFromReplace) { "C16" } else { "C10" },
                         "wtinylfu_relation",
                         op_name(&op),
                         format!("W-TinyLFU policy calls for window {:?}, probationary {:?}, protected {:?} (estimates {:?}): {}", keys_of(&e.w), keys_of(&e.pb), keys_of(&e.pt), probe.estimates, ctx(Some(post))),
@@ -1416,6 +1426,16 @@ pub fn owns(prop: &str, f: &Finding) -> bool {
 fn iter_panic(cfg: &Cfg, problem: &str) -> Option<Finding> {
     let m = problem.strip_prefix("iterator check panicked: ")?;
     Some(Finding::new("C05", "no_panic", format!("{:?}:iterator:{}", cfg.kind, crate::panics::location_of(m)), format!("an iterator panicked while being driven from both ends: {}", m)))
+}
+
+/// an iterator that yields something that is not a live key/value object has read memory it must not read (C03)
+fn iter_dead(cfg: &Cfg, problem: &str) -> Option<Finding> {
+    let yielded = problem.split("yielded ").nth(1).or_else(|| problem.split("yields ").nth(1))?;
+    let got = yielded.split(", expected").next().unwrap_or(yielded);
+    if got.contains("(255, ") || got.contains(", (255, 255))") || got.contains("(254, (255, 255))") {
+        return Some(Finding::new("C03", "no_invalid_memory_handed_out", format!("{:?}/iterator", cfg.kind), format!("an iterator yielded a key/value that is not a live, initialised object: {}", problem)));
+    }
+    None
 }
 
 pub fn op_name(op: &Op) -> String {
